@@ -22,6 +22,8 @@ def run(ctx):
     no = wrappers.r_objslot(ctx)
     wrappers.r_heur(ctx)
     wrappers.r_lmienc(ctx)
+    wrappers.r_mainvars(ctx)
+    wrappers.r_trilorder(ctx)
     translate.r_transl(ctx)
     pepsolve.r_objsense(ctx)
     ctx.floor("bar-variable index sites", nb, 6)
